@@ -146,6 +146,12 @@ def scenarios():
             ("inv-extra-mandatory-param", "lambda self, x: True", "definition", "ValueError"),
             ("inv-other-param-only", "lambda x: True", "definition", "ValueError"),
             ("inv-two-other-params", "lambda a, b: True", "definition", "ValueError"),
+            # variable parameters are parameters other than ``self`` as well
+            ("inv-self-and-varargs", "lambda self, *args: True", "definition", "ValueError"),
+            ("inv-self-and-varkw", "lambda self, **kwargs: True", "definition", "ValueError"),
+            ("inv-varargs-only", "lambda *args: True", "definition", "ValueError"),
+            ("inv-varkw-only", "lambda **kwargs: True", "definition", "ValueError"),
+            ("inv-self-and-kwonly", "lambda self, *, strict: True", "definition", "ValueError"),
             ("control-inv-self", "lambda self: True", "none", None),
             ("control-inv-no-param", "lambda: True", "none", None),
         ):
